@@ -14,7 +14,7 @@ from .framework import CaseResult, Finding
 from .script import hx
 
 SL, DOT = 0x2f, 0x2e
-ALPHA = [0x2f, 0x2e, 0x61, 0x62, 0xc3, 0xa9]
+ALPHA = [0x2f, 0x2e, 0x61, 0x62, 0x5c, 0xc3, 0xa9]      # '/', '.', 'a', 'b', backslash, U+00E9
 
 
 def alphabet(ex, s):
